@@ -47,11 +47,14 @@ func randCfg(r drv.Rand) worldCfg {
 	c.spare = r.Chance(2, 3)
 	c.cfgStyle = r.IntN(3)
 	c.audHas = r.Chance(1, 3)
+	if r.Chance(3, 5) { // the signing algorithm of the world's OPs: every supported family, not only the default
+		c.sigAlg = r.IntN(len(sigAlgs))
+	}
 	return c
 }
 
 func cfgTags(c worldCfg) []string {
-	return []string{fmt.Sprintf("spare=%v", c.spare), fmt.Sprintf("userEp=%v", c.userEp > 0), fmt.Sprintf("cfgStyle=%d", c.cfgStyle)}
+	return []string{fmt.Sprintf("spare=%v", c.spare), fmt.Sprintf("userEp=%v", c.userEp > 0), fmt.Sprintf("cfgStyle=%d", c.cfgStyle), "alg=" + string(sigAlgs[c.sigAlg])}
 }
 
 var roptVerOpts = roptd{"RVerifierOpts 5", -1, func(w *world) rp.Option { return rp.WithVerifierOpts(w.rpVerOpts...) }}
@@ -126,9 +129,16 @@ func genSnap(r drv.Rand, n int) snapCase {
 			sc.setup = []opd{newLegacyCaps(i, stor, r.IntN(8))}
 		}
 		sc.o = provReq(i, stor, r.IntN(10))
+		if r.Chance(1, 3) { // a request of one of the several registered clients, any credential kind and variant
+			cl := r.IntN(len(idents))
+			k := drv.Pick(r, kindsFor(idents[cl].cred, 7))
+			sc.o = clientReq(i, stor, cl, k, drv.Pick(r, variantsFor(k)))
+		}
 	case 10:
 		sc.o = devGetAudience()
-		if r.Bool() { // a caller-owned key slice passed variadically
+		if r.Chance(1, 3) { // a package-level helper
+			sc.o = helperCall(r.IntN(4), r.IntN(len(sigAlgs)))
+		} else if r.Bool() { // a caller-owned key slice passed variadically
 			sc.o = findKey(drv.Pick(r, []string{"", "", "rsa-1", "ec-1", "nope"}), drv.Pick(r, []string{"sig", "sig", ""}),
 				drv.Pick(r, []string{"RS256", "RS256", "ES256", "PS256", "EdDSA"}), r.Chance(1, 3))
 		}
@@ -222,7 +232,7 @@ func genGroup(r drv.Rand, g int, kind, tenant int) (group, string) {
 		tn = tenant
 	}
 	if kind < 0 {
-		kind = r.IntN(9)
+		kind = r.IntN(10)
 	}
 	switch kind {
 	case 0, 1, 2: // providers / legacy servers in every optional-capability configuration, serving requests
@@ -283,6 +293,12 @@ func genGroup(r drv.Rand, g int, kind, tenant int) (group, string) {
 			ops = append(ops, ksVerify(i, c, tn))
 		}
 		return group{ops, ksVerify(i, c, tn)}, "keyset"
+	case 8: // package-level helpers used next to everything else
+		var ops []opd
+		for j := 1 + r.IntN(3); j > 0; j-- {
+			ops = append(ops, helperCall(r.IntN(4), r.IntN(len(sigAlgs))))
+		}
+		return group{ops, helperCall(r.IntN(2), 3+r.IntN(7))}, "helpers"
 	}
 	return group{[]opd{newRP(i, true, 1, append(copt, genRopt(r))), clientCall(c, 2+r.IntN(2))}, clientCall(c, 0)}, "rpoauth"
 }
@@ -407,10 +423,13 @@ func main() {
 	for n := 0; n < nOrder/2; n++ {
 		runHandlers(w, r)
 	}
+	for n := 0; n < nOrder*3/4; n++ { // several clients on ONE provider / legacy server
+		runClients(w, r)
+	}
 	extra := map[string]any{"calls_succeeded": okCount}
 	notes := raceTier(w, cfg, extra) // quick: reduced (1 round, 30% iterations); thorough: 2 rounds
 	err := w.Close(emit.Meta{Property: "C20", Tier: cfg.Tier, Seed: cfg.Seed, Notes: notes, Extra: extra,
-		Rule: "snap: 16 operation classes in rotation (constructors of op/rp/rs/tokenexchange with random option lists, requests against provider and legacy server, rp/rs/tokenexchange/key-set calls, client.Call* helpers, GetAudience) on a randomised world (default or caller client with/without CheckRedirect, jar, timeout; user-customised default endpoint; option slices with spare capacity; oauth2.Config auth style); order: 2-4 groups on separate instances sharing clients/defaults, random interleaving, one probe per group (discovery endpoints; does a Discover/token/userinfo/introspect/exchange call follow a redirect). Non-trivial = every case (path class = operation class / interleaving length); distinct = distinct input term.",
+		Rule: "snap: 16 operation classes in rotation (constructors of op/rp/rs/tokenexchange with random option lists, requests against provider and legacy server, rp/rs/tokenexchange/key-set calls, client.Call* helpers, GetAudience) on a randomised world (default or caller client with/without CheckRedirect, jar, timeout; user-customised default endpoint; option slices with spare capacity; oauth2.Config auth style); order: 2-4 groups on separate instances sharing clients/defaults, random interleaving, one probe per group (discovery endpoints; does a Discover/token/userinfo/introspect/exchange call follow a redirect); handler: overlapping requests with per-request data on one handler value; clients: 2-4 clients (two basic, two post, four JWT-key clients; a client and mostly its twin) on ONE provider / legacy server, 1-3 requests + a probe each of a random kind (client credentials, code, jwt-bearer, refresh, introspection, revocation, device, userinfo, another client's token) in a random credential variant (own, twin's, none, near miss), random interleaving, probe answer = refused / served as client c. Non-trivial = every case (path class = operation class / interleaving length); distinct = distinct input term.",
 	})
 	if err != nil {
 		fmt.Fprintln(os.Stderr, err)
